@@ -216,6 +216,15 @@ def handleAgvWaitingToWaiting (inst : Instance) (s : State) (r : Rng)
   let occ ← getWaitingTime inst s tr
   pure (s.replaceTransport { t with st := .waitingpickup, occ := occ }, r)
 
+/-- destination of a transport: the (first) output buffer when no operation is idle, else the
+    machine of the operation selected by `pick` -/
+def dropLoc (inst : Instance) (j : JobState) (pick : JobState → Except Err OpState) : Except Err Loc :=
+  if j.noOpIdle then (firstOutput inst).map Loc.b else (pick j).map (fun o => Loc.m o.machine)
+
+/-- `get_next_idle_operation` with the `InvalidValue` raised by the dispatch handler when absent -/
+def JobState.nextIdleE (j : JobState) : Except Err OpState :=
+  match j.nextIdle? with | some o => pure o | none => throw .invalidValue
+
 /-- `_get_travel_time_from_spec` (update, then read) -/
 def travelTimeFromSpec (orc : Oracle) (inst : Instance) (r : Rng) (src dst : Loc) :
     Except Err (Int × Rng) :=
@@ -232,8 +241,7 @@ def handleAgvPickupToTransit (orc : Oracle) (inst : Instance) (s : State) (r : R
   let j ← getJob s.jobs jid
   let src : Loc := match machineIdOfBuffer inst.machines j.loc with
     | some mid => .m mid | none => .b j.loc
-  let dst : Loc ← if j.noOpIdle then (firstOutput inst).map Loc.b
-                  else j.nextNotDone.map (fun o => Loc.m o.machine)
+  let dst ← dropLoc inst j JobState.nextNotDone
   let (tt, r) ← travelTimeFromSpec orc inst r src dst
   let (s, tbuf, j) ← match src with
     | .b bid => do
@@ -249,21 +257,28 @@ def handleAgvPickupToTransit (orc : Oracle) (inst : Instance) (s : State) (r : R
   let t' := { t with st := .transit, occ := .at (s.time + tt), buffer := tbuf }
   pure ((s.replaceJob j).replaceTransport t', r)
 
+/-- where the AGV has to go for a job stored in the buffer with config `bc` -/
+def pickupSource (bc : BufCfg) (loc : Nat) : Except Err Loc :=
+  match bc.parent with
+  | none => pure (Loc.b loc)
+  | some (.m mid) => pure (Loc.m mid)
+  | some _ => throw .transportConfig
+
+/-- matrix lookup without `update()` for the empty run to the pickup point -/
+def travelNoUpdate (orc : Oracle) (inst : Instance) (r : Rng) (a b : Loc) : Except Err Int :=
+  match travelCfg inst a b with
+  | some c => pure (c.cur orc r)
+  | none => throw .transportConfig
+
 def handleAgvIdleToWorking (orc : Oracle) (inst : Instance) (s : State) (r : Rng)
     (tr : Transition) (t : TransportState) : Except Err (State × Rng) := do
   let jid ← match tr.job with | some j => pure j | none => throw .invalidValue
   let cur ← match t.loc with | .at l => pure l | .route .. => throw .invalidValue
   let j ← getJob s.jobs jid
-  let target : Loc ← if j.noOpIdle then (firstOutput inst).map Loc.b
-    else match j.nextIdle? with
-      | some o => pure (Loc.m o.machine) | none => throw .invalidValue
+  let target ← dropLoc inst j JobState.nextIdleE
   let bc ← getBufCfg (allBufCfgs inst) j.loc
-  let src : Loc ← match bc.parent with
-    | none => pure (Loc.b j.loc)
-    | some (.m mid) => pure (Loc.m mid)
-    | some _ => throw .transportConfig
-  let ttp ← match travelCfg inst cur src with
-    | some c => pure (c.cur orc r) | none => throw .transportConfig
+  let src ← pickupSource bc j.loc
+  let ttp ← travelNoUpdate orc inst r cur src
   let t' := { t with loc := .route cur bc.id target, st := .pickup, occ := .at (s.time + ttp),
                      job := some j.id }
   pure (s.replaceTransport t', r)
